@@ -3,7 +3,8 @@
 (* C10 - pmutt.empirical.references.References as a state machine over     *)
 (* exact linear algebra (Lin.tla, Rat.tla).                                *)
 (*                                                                         *)
-(* A reference species is a record [x, d, t]: x its composition over the   *)
+(* A reference species is a record [x, d, t, nm]: nm its name (0 stands    *)
+(* for None; the required fit ignores it), x its composition over the      *)
 (* descriptors 1..ND (small integers), d = HoRT_dft(t) - HoRT_exp the      *)
 (* dimensionless offset it asks for (an integer here), t its reference     *)
 (* temperature.  Abstract state of a References object:                    *)
@@ -54,11 +55,11 @@ CONSTANTS ND,        \* number of descriptors the references can contain
           Steps,     \* integer perturbations of one offset tried by Optimal
           Temps,     \* temperatures tried by TIndependent
           Record,    \* TRUE: h carries the full record of every step (replay); FALSE: the action only
-          Algo,      \* "lstsq" (the code) | "squarefast" (named variant, expected to be rejected)
+          Algo,      \* "lstsq" (the code) | "squarefast" | "dftcache" (named variants, expected to be rejected)
           Garbage    \* size of the offsets an undetected singular square solve returns
 
-VARIABLES refs, keys, off, tref, fitted, h
-vars == <<refs, keys, off, tref, fitted, h>>
+VARIABLES refs, keys, off, tref, fitted, cache, h
+vars == <<refs, keys, off, tref, fitted, cache, h>>
 
 \* ---- the fit
 Descs(rs) == {j \in 1..ND : \E i \in 1..Len(rs) : rs[i].x[j] # 0}
@@ -75,12 +76,26 @@ MeanT(rs) == RFrac(SumT(rs), Len(rs))
 \* order 1e16 that have nothing to do with the least-squares solution.  Abstraction of that
 \* (worst) case: a singular square yields an arbitrary large vector, here Garbage everywhere.
 SquareSingular(rs, ks) == Len(rs) = Len(ks) /\ IRank(AMat(rs, ks), Len(ks)) < Len(ks)
-FitOf(rs) == LET ks == KeySeq(rs) IN
+FitWith(rs, dv) == LET ks == KeySeq(rs) IN
    [keys |-> ks,
     off |-> IF Algo = "squarefast" /\ SquareSingular(rs, ks)
             THEN TLCEval([k \in 1..Len(ks) |-> R(Garbage)])
-            ELSE MinNormLS(RMat(AMat(rs, ks)), Len(ks), RVec(DVec(rs))),
+            ELSE MinNormLS(RMat(AMat(rs, ks)), Len(ks), RVec(dv)),
     tref |-> MeanT(rs)]
+\* the required fit: every reference contributes its OWN model enthalpy (d of that reference)
+FitOf(rs) == FitWith(rs, DVec(rs))
+\* Variant "dftcache": the object remembers, between fits, the model enthalpy of each reference under
+\* the key (name, T_ref) - field nm is the name, 0 standing for None (the default) - and on a refit
+\* evaluates only references whose key is new.  References sharing a key (unnamed, or duplicate
+\* names, same T_ref) then pick up another species' value (the last one stored wins).
+CacheLookup(c, r) == LET idx == {i \in 1..Len(c) : c[i].nm = r.nm /\ c[i].t = r.t} IN
+                     IF idx = {} THEN r.d ELSE c[CHOOSE i \in idx : \A j \in idx : j <= i].d
+DEff(rs, c) == TLCEval([i \in 1..Len(rs) |-> IF Algo = "dftcache" THEN CacheLookup(c, rs[i]) ELSE rs[i].d])
+NewCache(rs, c) == IF Algo = "dftcache"
+                   THEN TLCEval([i \in 1..Len(rs) |-> [nm |-> rs[i].nm, t |-> rs[i].t, d |-> DEff(rs, c)[i]]])
+                   ELSE <<>>
+\* what the object computes on a fit
+FitAlgo(rs, c) == FitWith(rs, DEff(rs, c))
 
 Residual(rs, ks, o) == VSub(RVec(DVec(rs)), MatVec(RMat(AMat(rs, ks)), o))
 RowsIndependent(rs, ks) == IRank(AMat(rs, ks), Len(ks)) = Len(rs)
@@ -109,13 +124,15 @@ Rec(a, arg) ==
     det |-> RowsIndependent(refs', f.keys),
     samet |-> SameT(refs')]
 
-DoFit(rs) == LET f == FitOf(rs) IN
-             keys' = f.keys /\ off' = f.off /\ tref' = f.tref /\ fitted' = rs
-After(rs) == IF Variant = "auto" THEN DoFit(rs) ELSE UNCHANGED <<keys, off, tref, fitted>>
+DoFit(rs) == LET f == FitAlgo(rs, cache) IN
+             /\ keys' = f.keys /\ off' = f.off /\ tref' = f.tref /\ fitted' = rs
+             /\ cache' = NewCache(rs, cache)
+After(rs) == IF Variant = "auto" THEN DoFit(rs) ELSE UNCHANGED <<keys, off, tref, fitted, cache>>
 
 Init == /\ refs \in InitSets
-        /\ LET f == FitOf(refs) IN keys = f.keys /\ off = f.off /\ tref = f.tref
+        /\ LET f == FitAlgo(refs, <<>>) IN keys = f.keys /\ off = f.off /\ tref = f.tref
         /\ fitted = refs
+        /\ cache = NewCache(refs, <<>>)
         /\ h = <<IF ~Record THEN [act |-> "construct"] ELSE
                  [act |-> "construct", arg |-> refs, n |-> Len(refs),
                   cur |-> Snap(refs, refs, keys, off, tref),
@@ -196,7 +213,7 @@ ReproducesAtTref ==
          /\ SameT(refs) => RZero(err)
 
 \* what the code does between an edit and the next fit
-StaleAfterEdit == [][h'[Len(h')].act # "fit" => UNCHANGED <<keys, off, tref, fitted>>]_vars
+StaleAfterEdit == [][h'[Len(h')].act # "fit" => UNCHANGED <<keys, off, tref, fitted, cache>>]_vars
 \* NOT a property of the code (expected to be rejected under Variant = "explicit")
 AlwaysFresh == Fresh
 
